@@ -291,6 +291,8 @@ def compile_harness(obl, jobdir):
 
 def cbmc_cmd(obl, binary, extra=None):
     base = [f for f in CBMC_BASE if f not in obl.drop_base]
+    if "--max-field-sensitivity-array-size" in obl.flags:
+        base = [f for i, f in enumerate(CBMC_BASE) if f not in obl.drop_base and f != "--max-field-sensitivity-array-size" and (i == 0 or CBMC_BASE[i - 1] != "--max-field-sensitivity-array-size")]
     if "--object-bits" in obl.flags:
         i = base.index("--object-bits")
         del base[i:i + 2]
